@@ -101,35 +101,62 @@ def run(repo, rep):
         N = '%s.%s' % (ctx, ATTR)
         defs = single_defs(f.node)
         g = Guards(f.node)
-        # the notice: '...{}...'.format(X)
-        fmts = [c for c in ast.walk(f.node) if isinstance(c, ast.Call) and isinstance(c.func, ast.Attribute)
-                and c.func.attr == 'format' and isinstance(c.func.value, ast.Constant) and 'more' in str(c.func.value.value)]
-        n += 1
-        if len(fmts) != 1:
-            rep.fail('C10.b', '%s:notice' % f.qualname, f.where, 'expected exactly one truncation notice, found %d' % len(fmts))
-            continue
-        fm = fmts[0]
-        arg = fm.args[0] if fm.args else None
-        env = {k: v[0] for k, v in defs.items() if len(v) == 1}
-        try:
-            got = form(arg, env)
-            want = atom('len(%s)' % value).add(atom(N).scale(-1))
-            okf = got == want
-        except (NotLinear, TypeError):
-            okf, got = False, src(arg) if arg is not None else None
-        rep.check(okf, 'C10.b', '%s:count-is-len-minus-N' % f.qualname, '%s:%d' % (f.module.relpath, fm.lineno),
-                  'announced count = len(value) - max_seq_len',
-                  'the number of omitted elements announced by %s is %s; it must be len(%s) - %s' % (f.name, got, value, N),
-                  nontrivial=True)
-        n += 1
-        gt = any(_is_len_gt(ff.test, ff.pol, 'len(%s)' % value, N) for ff in g.of(fm))
-        rep.check(gt, 'C10.b', '%s:notice-only-when-longer' % f.qualname, '%s:%d' % (f.module.relpath, fm.lineno),
-                  'notice only when len(value) > max_seq_len',
-                  'the truncation notice is produced under %s instead of len(%s) > %s' % (g.texts(fm), value, N), nontrivial=True)
-        txt = str(fm.func.value.value)
-        n += 1
-        rep.check(txt.count('{}') == 1 and txt.startswith('...and {} more'), 'C10.b', '%s:notice-text' % f.qualname,
-                  '%s:%d' % (f.module.relpath, fm.lineno), 'one number in the notice', 'notice text is %r' % txt)
+        # the notice, semantically: interpret the printer on values with n elements; on the paths that assumed
+        # len(value) > max_seq_len (canonically ``ctx.max_seq_len < n``) the document ends with one comment announcing
+        # exactly n - max_seq_len elements, on the other paths with none
+        from engine import docterm as D
+        from engine.interp import ValueV, TypeV, Sym, SymStr, CtxV, Undecided, NONE
+        from . import shape as S
+        keys = [r.key for r in facts.registry(repo) if r.fn is f]
+        base = 'dict' if 'dict' in keys else 'list'
+        def p_plain(it_, a_, k_, n_):
+            r_ = S.p_pretty_python_value(it_, a_, k_, n_)
+            r_.t.commented = False
+            return r_
+        itp = S.interp(repo, 'printer', {'pretty_str': S.p_pretty_str_as_sub, 'pretty_python_value': p_plain}, max_paths=4000)
+        for nel in (1, 2, 3):
+            v = ValueV(value, TypeV(base), [Sym('x%d' % i) for i in range(nel)])
+            for tc in (NONE, SymStr('user-comment', nonempty=True)):
+                try:
+                    res = S.run_printer(repo, itp, f, v, trailing_comment=tc)
+                except Undecided as e:
+                    rep.undecided('C10.b', '%s:notice[n=%d]' % (f.qualname, nel), f.where, str(e))
+                    continue
+                for pr, t, ph in res:
+                    if pr.raised is not None or t is None or pr.assumed('depth_left', True):
+                        continue
+                    rep.count(1)
+                    longer = None
+                    for k_, v_ in pr.facts:
+                        if k_ == 'ctx.max_seq_len < %d' % nel:
+                            longer = v_
+                        elif k_ == '%d <= ctx.max_seq_len' % nel:
+                            longer = not v_
+                    inner = t.args[0] if isinstance(t, D.Call) and t.args and isinstance(t.args[0], D.T) else t
+                    items = inner.items if isinstance(inner, D.Seq) else [a for a in D.linearise(inner, 'break', lambda g_: 'break') if isinstance(a, D.T)]
+                    notices = [c for c in items if isinstance(c, D.Cmt) and 'more' in c.prov]
+                    n += 1
+                    lab = '%s:notice[n=%d,%s,%s]' % (f.qualname, nel, 'longer' if longer else 'fits', 'tc' if tc is not NONE else 'plain')
+                    if longer is None:
+                        rep.fail('C10.b', lab, f.where, 'the path (%s) never compares len(value) with max_seq_len' % pr.fact_text()[:120])
+                        continue
+                    if not longer:
+                        rep.check(not notices, 'C10.b', lab, f.where, 'no notice when nothing is omitted',
+                                  'a truncation notice %s is printed although len(value) <= max_seq_len was assumed' % [c.prov for c in notices][:1],
+                                  nontrivial=True)
+                        continue
+                    want_count = '(%d-ctx.max_seq_len)' % nel
+                    last_is_notice = bool(items) and isinstance(items[-1] if not isinstance(inner, D.Seq) else inner.items[-1], D.Cmt) or \
+                        (bool(notices) and [x for x in items if isinstance(x, (D.Cmt, D.Sub))][-1] is notices[-1])
+                    import re as _re
+                    exact = bool(notices) and bool(_re.search(r'[;{]' + _re.escape(want_count) + r'[)}]', notices[0].prov))
+                    okn = len(notices) == 1 and exact \
+                        and (tc is NONE or 'user-comment' in notices[0].prov) and last_is_notice
+                    rep.check(okn, 'C10.b', lab, f.where, 'one trailing notice announcing exactly len(value) - max_seq_len elements',
+                              'with %d elements and len(value) > max_seq_len the printed document carries the comments %s: expected exactly one, '
+                              'after the last element, announcing %s omitted elements%s' % (nel, [c.prov for c in [x for x in items if isinstance(x, D.Cmt)]],
+                                                                                         want_count, ' followed by the user comment' if tc is not NONE else ''),
+                              nontrivial=True)
         # truncated iteration of the same container
         takes = [c for c in ast.walk(f.node) if isinstance(c, ast.Call) and call_name(c) == 'take']
         n += 1
@@ -146,7 +173,7 @@ def run(repo, rep):
                   'elements come from take(max_seq_len, <iteration of the printed container>)',
                   'the elements shown by %s come from %s: they must be the first max_seq_len items of %s itself' % (f.name, detail, value),
                   nontrivial=True)
-    rep.floor('C10.b', n, 9)
+    rep.floor('C10.b', n, 20)
 
     # ---------------------------------------------------------------- C10.c None
     n = 0
